@@ -310,7 +310,7 @@ func main() {
 	fails := map[string]string{} // kind -> "case ## detail" (shortest dump first)
 	failSize := map[string]int{}
 	distinct := map[[32]byte]bool{}
-	nontrivial, buildErrs, maxDepthAll := 0, 0, 0
+	nontrivial, buildErrs, maxDepthAll, written := 0, 0, 0, 0
 	samples := []string{}
 	for i := 0; i < n; i++ {
 		r := &rng{s: seed*1000003 + uint64(i)}
@@ -408,6 +408,7 @@ func main() {
 			e = 1
 		}
 		fmt.Fprintf(w, "case %d\n%sendcase\nobs %d\n%sendobs\n", i, dump, e, dumpBlocks(blocks))
+		written++
 		if strIn, strObs := dumpStrings(b.Net); true {
 			fmt.Fprintf(w, "%s%sendstr\n", strIn, strObs)
 			kinds["string-renderings-compared"] += strings.Count(strObs, "\n")
@@ -422,9 +423,11 @@ func main() {
 			}
 		}
 	}
+	fmt.Fprintf(w, "END %d\n", written)
 	w.Flush()
 	f.Close()
 	sf, _ := os.Create(out + ".summary")
+	fmt.Fprintf(sf, "written %d\n", written)
 	fmt.Fprintf(sf, "cases %d\nnontrivial %d\ndistinct %d\nbuilderrors %d\nmaxdepth %d\n", n, nontrivial, len(distinct), buildErrs, maxDepthAll)
 	keys := make([]string, 0, len(kinds))
 	for k := range kinds {
